@@ -1,9 +1,14 @@
 ---------------------------- MODULE MC_Cancel ----------------------------
 EXTENDS Cancel, Json, SequencesExt
 CONSTANT Noise
-TheCbs == {"f1", "f2", "f3"}
-TheClosers == {"c1", "c2"}
+ThreeCbs == {"f1", "f2", "f3"}
+OneCb == {"f1"}
+TwoClosers == {"c1", "c2"}
+OneCloser == {"c1"}
 NoShutters == {}
 TwoShutters == {"s1", "s2"}
-ASSUME JsonSerialize("tuples.json", SetToSeq({[op |-> t.op, pt |-> t.pt, kind |-> t.kind, noise |-> z] : t \in Tuples, z \in Noise}))
+AllCalls == {"occ", "op", "w"}
+OnlyOp == {"op"}
+TwoCalls == {"occ", "op"}
+ASSUME JsonSerialize("tuples.json", SetToSeq({[op |-> t.op, pt |-> t.pt, kind |-> t.kind, datagram |-> t.datagram, noise |-> z] : t \in Tuples, z \in Noise}))
 ==========================================================================
